@@ -60,7 +60,7 @@ def sweep(tier):
     # sequence number wrap-around: more than 256 segments
     big = [(257, 2), (300, 8)] if tier == 'quick' else [(256, 1), (257, 1), (257, 2), (258, 3), (300, 8), (513, 4), (600, 7)]
     for nseg, w in big:
-        out.append(S.two_node(dict(maxApdu=50, win=w, maxSegs=None), dict(maxApdu=50, win=w, maxSegs=None), n=nseg * 44 - 7, resp=('complex', nseg * 45 - 9)))
+        out.append(S.two_node(dict(maxApdu=50, win=w, maxSegs=None, retries=1), dict(maxApdu=50, win=w, maxSegs=None, retries=1), n=nseg * 44 - 7, resp=('complex', nseg * 45 - 9)))
     return out
 
 
@@ -90,7 +90,7 @@ def scenarios(tier, seed):
         for kind, op in (('drop', ('drop',)), ('dup', ('dup', 0.0005)), ('delay', ('delay', 0.0025))):
             if i < len(ffw.frames):
                 items.append(('c05', S.with_faults(wrap, {i: [op]}), (kind, 'complex', S.frame_category(ffw.frames[i]))))
-    nrand = 300 if tier == 'quick' else 5000
+    nrand = 1200 if tier == 'quick' else 20000
     for _ in range(nrand):
         m = rng.choice((50, 50, 50, 128))
         n = rng.choice((0, 10, m - 6, 2 * m, 5 * m, 12 * m))
